@@ -1,10 +1,110 @@
 (* C11 - pdcp/rpdcp reproduce the source tree exactly on every target.
-   Statements only.  Models: Pcp/PcpClient.v (pcp_client.c), Pcp/PcpSink.v (pcp_server.c), Pcp/FsModel.v.
-   Proofs: Pcp/PcpClientFacts.v. *)
-From PV Require Import Pcp.FsModel Pcp.PcpSink Pcp.PcpClient Pcp.PcpClientFacts.
+   Statements only.
+   Models: Pcp/PcpClient.v (pcp_client.c: pcp_expand_dirs with the leave-directory sentinel, the record
+   encoder T/D/C/E, the BUFSIZ-byte block loop, the one-byte answers; cc_skip = fixes/C11-refused-directory.diff),
+   Pcp/PcpSink.v (pcp_server.c _sink; c_dirmode = fixes/C11-preserve-dir-mode.diff), Pcp/FsModel.v.
+   Spec: PcpRound.faithful (names, structure, bytes; with -p also permission bits and mtime).
+   Proofs: Pcp/FsAlgebra.v FsForward.v PcpRecords.v PcpStep.v PcpEncode.v PcpRound.v PcpCopyFacts.v PcpCopyWitness.v. *)
+From PV Require Import Pcp.FsModel Pcp.PcpSink Pcp.PcpClient Pcp.FsFacts Pcp.FsForward Pcp.PcpClientFacts
+  Pcp.PcpEncode Pcp.PcpRound Pcp.PcpCopyFacts Pcp.PcpCopyWitness.
 Local Open Scope N_scope.
 
-(* the mode field: what the sender prints with "%04o" is what the receiver's scanner reads, for all modes *)
+(* The mode field: "%04o" of the sender and the scanner of the receiver are inverse on all 4096 modes. *)
 Theorem C11_mode_field : forall m r, m < 4096 -> getmode 4 (oct4 m ++ r) 0 = POk (m, r).
 Proof. exact getmode_oct4. Qed.
 Print Assumptions C11_mode_field.
+
+(* C11_blocks.  For EVERY size, every previous content of the file and every st_blksize: the receiver's
+   BUFSIZ-piece data loop followed by ftruncate leaves exactly the bytes that were sent (a longer old file
+   is cut, a shorter one extended), consumes exactly those bytes, and changes nothing but that file. *)
+Theorem C11_blocks : forall cfg p m t old d rest w,
+  lookup (w_fs w) p = Some (File m t old) -> w_in w = d ++ rest ->
+  exists w2 fs3,
+    data_loop (S (length (w_in w))) (blk_cnt cfg) p (Z.of_nat (length d)) 0%Z [] 0 0 w = DDone w2 /\
+    w_in w2 = rest /\
+    fs_truncate (w_fs w2) p (Z.of_nat (length d)) = Some fs3 /\
+    lookup fs3 p = Some (File m None d) /\
+    set_at (w_fs w) p (File m None d) = Some fs3.
+Proof. exact blocks_exact. Qed.
+Print Assumptions C11_blocks.
+
+(* The walk over the pre-expanded flat file list with its leave-directory sentinels is the recursive
+   encoding of the trees: given acknowledgements, the sender writes encode_list of its sources
+   (any depth, fan-out, sizes; sibling names distinct; a top-level name is not the sentinel). *)
+Theorem C11_sender_stream : forall c (l : list src) rs,
+  cc_suffix c = None ->
+  (forall pre k n, In (pre, k, n) l ->
+     wf_names n /\ lookup (cc_fs c) (cc_cwd c ++ pre ++ [k]) = Some n /\ (pre <> [] \/ beq k sentinel = false)) ->
+  client c (top_files l) (repeat Ack (1 + n_acks_list (cc_preserve c) (map src_entry l)) ++ rs) =
+  encode_list (cc_preserve c) (map src_entry l).
+Proof. intros c l rs H. exact (client_all_acks c H l rs). Qed.
+Print Assumptions C11_sender_stream.
+
+(* C11_roundtrip.  For ALL source trees (depth, fan-out, file sizes, all 12 mode bits, with and without -p)
+   whose names are good_name (no '/', newline or NUL, not "." or "..", at most 255 bytes), sizes and times
+   below 2^63, joined path names below PATH_MAX, copied into an existing directory that has no entry of
+   those names yet: sender and receiver agree on one conversation, every answer is an acknowledgement, and
+   the target directory ends up with its old entries plus a faithful copy of every source
+   (names, structure, bytes; with -p - and the directory-mode repair - permission bits and mtimes), and
+   nothing else in the tree changes. *)
+Theorem C11_roundtrip : forall cfg c fs (l : list src) dp t dm dt de,
+  cc_suffix c = None -> cc_preserve c = c_preserve cfg ->
+  (forall pre k n, In (pre, k, n) l ->
+     lookup (cc_fs c) (cc_cwd c ++ pre ++ [k]) = Some n /\ (pre <> [] \/ beq k sentinel = false)) ->
+  wf_src_list cfg (map src_entry l) -> names_distinct (map src_entry l) ->
+  fits_list (length (c_dest cfg)) (map src_entry l) ->
+  (forall k v, In (k, v) (map src_entry l) -> assoc k de = None) ->
+  resolve fs (c_cwd cfg) (c_dest cfg) = ROk dp t -> lookup fs dp = Some (Dir dm dt de) ->
+  (c_preserve cfg = true -> c_dirmode cfg = true) ->
+  exists stream w' copies dt',
+    sink cfg fs stream = (w', RetEnd) /\
+    client c (top_files l) (seen_replies w') = stream /\
+    replies w' = repeat Ack (1 + n_acks_list (c_preserve cfg) (map src_entry l)) /\ w_in w' = [] /\
+    lookup (w_fs w') dp = Some (Dir dm dt' (de ++ copies)) /\
+    faithful_list cfg (map src_entry l) copies /\
+    set_at fs dp (Dir dm dt' (de ++ copies)) = Some (w_fs w').
+Proof. exact copy_roundtrip. Qed.
+Print Assumptions C11_roundtrip.
+
+(* Without the chmod after mkdir (the code before fixes/C11-preserve-dir-mode.diff) -p does not
+   reproduce the permission bits of a new directory: 02755 arrives as 0755. *)
+Theorem C11_dir_mode_refuted_without_chmod :
+  exists m t e, at_ (run false true true fs_plain) [n_h; n_tree] = Some (Dir m t e) /\ m = 493 /\ m <> 1517.
+Proof. exact dirmode_lost. Qed.
+Print Assumptions C11_dir_mode_refuted_without_chmod.
+
+(* C11_error_isolated, on the witness of defect 20 (tree/sub is a regular file on the target):
+   the code before fixes/C11-refused-directory.diff puts b into tree/ and z one level too high ... *)
+Theorem C11_error_isolated_refuted_without_skip :
+  at_ (run true false false fs_blocked) [n_h; n_tree; n_b] = Some (File 420 None [66]) /\
+  at_ (run true false false fs_blocked) [n_h; n_z] = Some (File 384 None [90; 90]) /\
+  at_ (run true false false fs_blocked) [n_h; n_tree; n_z] = None.
+Proof. exact refused_not_isolated. Qed.
+Print Assumptions C11_error_isolated_refuted_without_skip.
+
+(* ... with the repair the obstacle is left alone, z arrives where it belongs, nothing lands elsewhere *)
+Example C11_error_isolated_example :
+  at_ (run true true false fs_blocked) [n_h; n_tree; n_z] = Some (File 384 None [90; 90]) /\
+  at_ (run true true false fs_blocked) [n_h; n_tree; n_sub] = Some (File 420 None [120]) /\
+  at_ (run true true false fs_blocked) [n_h; n_tree; n_b] = None /\
+  at_ (run true true false fs_blocked) [n_h; n_z] = None /\
+  at_ (run true true false fs_blocked) [n_h; n_b] = None.
+Proof. exact refused_isolated. Qed.
+
+(* the hypotheses of C11_roundtrip are met by an ordinary copy (pdcp -r -p tree .), whose result through
+   the composed models is the source tree with all modes and times *)
+Example C11_nonvacuous :
+  (cc_suffix ex_cc = None /\ cc_preserve ex_cc = c_preserve ex_cfg /\
+   (forall pre k n, In (pre, k, n) ex_l ->
+      lookup (cc_fs ex_cc) (cc_cwd ex_cc ++ pre ++ [k]) = Some n /\ (pre <> [] \/ beq k sentinel = false)) /\
+   wf_src_list ex_cfg (map src_entry ex_l) /\ names_distinct (map src_entry ex_l) /\
+   fits_list (length (c_dest ex_cfg)) (map src_entry ex_l) /\
+   (forall k v, In (k, v) (map src_entry ex_l) -> assoc k [] = None) /\
+   resolve fs_plain (c_cwd ex_cfg) (c_dest ex_cfg) = ROk [n_h] true /\
+   lookup fs_plain [n_h] = Some (Dir 493 None []) /\
+   (c_preserve ex_cfg = true -> c_dirmode ex_cfg = true)) /\
+  at_ (run true true true fs_plain) [n_h; n_tree] =
+  Some (Dir 1517 (Some 1000000000%Z)
+            [(n_sub, Dir 493 (Some 1000000001%Z) [(n_b, File 420 (Some 1000000002%Z) [66])]);
+             (n_z, File 384 (Some 1000000003%Z) [90; 90])]).
+Proof. exact (conj ex_hyps plain_copy). Qed.
